@@ -62,6 +62,7 @@ type ProofOpts struct {
 	Thorough  bool
 	Verbose   bool
 	Sim       bool
+	Rel       bool // also prove independence from the scratch parameters (2-safety)
 	OnlyKinds map[string]bool // restrict the check pass to these obligation kinds (no inference)
 	Hook      func(fp *FuncProof) // driver-specific setup (adds atoms, spec hooks)
 	ExtraExit func(fp *FuncProof, pe *PathEnd) []*Oblig
@@ -92,6 +93,7 @@ type FuncProof struct {
 	problems []string
 	reach    map[*Cut]map[*Cut]bool
 	sim      *Sim
+	growBlocks map[int]bool
 	mu       sync.Mutex
 }
 
@@ -113,6 +115,7 @@ type ProofStats struct {
 
 func (eng *Engine) NewFuncProof(fn *ssa.Function, fc *FuncContract, opts ProofOpts) *FuncProof {
 	ex := eng.newExec(fn, fc, opts.Mode)
+	ex.relMode = opts.Rel
 	if opts.Sim && fc != nil && fc.Sim != "" {
 		if cfg, err := parseSimCfg(fc); err == nil && cfg != nil {
 			ex.simVariant = cfg.Variant
@@ -1133,6 +1136,9 @@ func (fp *FuncProof) Run() {
 		fp.Houdini()
 	}
 	fp.Check()
+	if fp.opts.Rel {
+		fp.RelCheck()
+	}
 	fp.stats.Secs = time.Since(t0).Seconds()
 }
 
